@@ -317,13 +317,37 @@ func run(seed int64, n int, dir string, _ []string) {
 				}
 				limTok = "-"
 			}
-			if kind != "none" && wt == 1 {
-				limSQL += " WITH TIES"
+			// every spelling of the clause: LIMIT v [ROW|ROWS|PERCENT] [ONLY | WITH TIES] [OFFSET k [ROW|ROWS]]  and
+			// [OFFSET k [ROW|ROWS]] FETCH {FIRST|NEXT} v {ROW|ROWS|PERCENT} [ONLY | WITH TIES]
+			restr := ""
+			if kind != "none" {
+				if wt == 1 {
+					restr = " WITH TIES"
+				} else if g.Intn(2) == 0 {
+					restr = " ONLY"
+				}
 			}
-			sql := prefix + orderBy + limSQL
+			offSQL := ""
 			if hasOff {
-				sql += fmt.Sprintf(" OFFSET %s", litInt(off))
+				offSQL = fmt.Sprintf(" OFFSET %s%s", litInt(off), g.Pick("", "", " ROW", " ROWS"))
 			}
+			sql := prefix + orderBy
+			form := "limit"
+			if kind != "none" && g.Intn(3) == 0 {
+				form = "fetch"
+				val := strings.TrimSuffix(strings.TrimPrefix(limSQL, " LIMIT "), " PERCENT")
+				unit := g.Pick(" ROW", " ROWS")
+				if kind == "p" {
+					unit = " PERCENT"
+				}
+				sql += offSQL + " FETCH " + g.Pick("FIRST", "NEXT") + " " + val + unit + restr
+			} else {
+				if kind == "n" {
+					limSQL += g.Pick("", "", " ROW", " ROWS")
+				}
+				sql += limSQL + restr + offSQL
+			}
+			o.Count("cutform:" + form + restr)
 			if kind == "none" {
 				wt = 0
 			}
@@ -345,6 +369,52 @@ func run(seed int64, n int, dir string, _ []string) {
 			o.Case(fmt.Sprintf("c07.cut %s %d %d %s %s %d %s", strings.Join(itemToks, ","), nitems, wt, kind, limTok, off, strings.Join(rowToks, " ")), got)
 			o.NonTrivial(fmt.Sprintf("cut:%s:%d:%s:%d:%d", kind, wt, limTok, off, nrows/20))
 			o.Count("cut:" + kind)
+		}
+		// without an ORDER BY clause of its own a query has no ties: WITH TIES keeps exactly n rows, the first n
+		// of what the same query returns without the clause — also when an analytic function in the select list
+		// has sorted the rows by its own OVER (ORDER BY …)
+		for c := 0; c < 4; c++ {
+			aprefix := []string{
+				"SELECT id, RANK() OVER (ORDER BY " + ca + ") AS rk FROM t",
+				"SELECT id, ROW_NUMBER() OVER (PARTITION BY " + ca + " ORDER BY " + cb + " DESC) AS rn FROM t",
+				"SELECT id, SUM(id) OVER (ORDER BY " + cb + ") AS s, " + ca + " FROM t",
+				"SELECT id FROM (SELECT id, " + ca + " FROM t ORDER BY " + ca + ") AS s",
+				"SELECT id, " + ca + " FROM t",
+			}[g.Intn(5)]
+			full, err := pr.Query(aprefix)
+			if err != nil {
+				continue
+			}
+			all := idsOf(full)
+			n := []int{0, 1, 2, 3, len(all) / 2, len(all)}[g.Intn(6)]
+			k := []int{0, 0, 1, 2, len(all) / 3}[g.Intn(5)]
+			clause := fmt.Sprintf(" LIMIT %d WITH TIES", n)
+			if g.Intn(3) == 0 {
+				clause = fmt.Sprintf(" FETCH FIRST %d ROWS WITH TIES", n)
+				if k > 0 {
+					clause = fmt.Sprintf(" OFFSET %d", k) + clause
+				}
+			} else if k > 0 {
+				clause += fmt.Sprintf(" OFFSET %d", k)
+			}
+			r, err := pr.Query(aprefix + clause)
+			if err != nil {
+				o.Law("with_ties_without_order_by", map[string]interface{}{"sql": aprefix + clause, "error": err.Error()})
+				continue
+			}
+			want := all
+			if k < len(want) {
+				want = want[k:]
+			} else {
+				want = nil
+			}
+			if n < len(want) {
+				want = want[:n]
+			}
+			if joinInts(idsOf(r)) != joinInts(want) {
+				o.Law("with_ties_without_order_by", map[string]interface{}{"sql": aprefix + clause, "rows": nrows, "got": joinInts(idsOf(r)), "want": joinInts(want)})
+			}
+			o.Count("ties_no_order_by")
 		}
 		pr.DisposeTable("t")
 	}
